@@ -37,6 +37,18 @@ CHECKS = {
          "Before every write to the persistent metadata (and at the end) of random single-thread programs and enumerated concurrent schedules the lower buffer is snapshotted, recovered with Init::Recover into a fresh allocator and observed; TLC evaluates the crash-consistency predicate against its own history variables (held blocks, in-flight calls, abstract free set).", "5 C05"),
  "C21": ("model_checking", "solo-run enumeration on the real code, step counts validated by TLC against TraceAbs!SoloBound",
          "At every scheduling point of base schedules every in-flight call is run alone (other threads frozen) until it returns; it must return normally within SoloBound(geometry) own steps.", "5 C21"),
+ "C12": ("model_checking", "trace validation of the compiled lower allocator against Abs (TraceSat!LGet/LPut)",
+         "Lower::get(row hint, order) is called directly on structured and random allocation patterns; TLC rejects a failure while Abs!ExistsFreeBlock holds for the hinted tree and any success that is not exactly one aligned free block of that tree.", "5 C12"),
+ "C16": ("model_checking", "exhaustive insertion sequences into the compiled SortedBuffer + random tree searches, validated by TLC against SortedBuf.tla",
+         "All insertion sequences up to a bound for all capacities 1..8 are run on the compiled SortedBuffer and Trees::search_best; TLC checks that the fallback candidates tried are the N best rated, best first (SortedBuf!IterOk / TreeSearchOk).", "5 C16"),
+ "C17": ("model_checking", "trace validation of ZoneAlloc / NvmAlloc driven through the Alloc trait (TraceAbs + NvmCreate/NvmRefuse/Reinit)",
+         "The wrappers are driven with shifted frame numbers; TLC validates them with the ordinary ownership and accounting predicates plus the layout, refusal and recovery actions.", "5 C17"),
+ "C19": ("model_checking", "enumeration of class configurations on the compiled ClassingConfig, requests validated by TLC against Classes!ValidRequest",
+         "Every generated request must name a configured class and no slot or a slot below that class's count, and must be usable on a real allocator.", "5 C19"),
+ "C20": ("model_checking", "TLC-enumerated traces (Replay.tla) replayed by the compiled binary; its output validated by TLC against Replay!Expected",
+         "Every trace up to a length bound over an alphabet with whole / partial (first, middle, last) / unknown frees and re-allocations is written as a binary trace file and run through eval/src/bin/replay.rs.", "5 C20"),
+ "C23": ("model_checking", "compiled row search on structured + random rows validated by TLC against RowSearch!SearchOk",
+         "The compiled first_zeros_aligned is called on structured rows for every order 0..6; TLC checks the reported offset is the lowest aligned free block and the returned row sets exactly its bits. (The symbolic all-2^64-rows leg with Apalache is recorded in the evidence when wired.)", "5 C23"),
 }
 
 NA = [
@@ -76,7 +88,7 @@ def main():
             "add_only": True,
         },
         "engines": [
-            {"name": "tlc-trace", "path": "spec/TraceAbs.tla", "serves_properties": sorted(CHECKS),
+            {"name": "tlc-trace", "path": "spec/TraceAbs.tla, spec/TraceSat.tla", "serves_properties": sorted(CHECKS),
              "kind_free_text": "TLC validates ndjson traces recorded from the real allocator by harness/ against the abstract TLA+ model"},
         ],
         "checks": checks,
